@@ -107,8 +107,15 @@ impl Records {
                         log::error!("record {} is too long, it would overwrite the next record",rec_num);
                         return Err(Box::new(Error::FileFormat));
                     }
-                    let mut chunk = self.record_len * rec_num / chunk_len;
-                    let mut offset = self.record_len * rec_num % chunk_len;
+                    let start = match self.record_len.checked_mul(*rec_num) {
+                        Some(start) if start.checked_add(self.record_len + chunk_len).is_some() => start,
+                        _ => {
+                            log::error!("record number {} is out of range",rec_num);
+                            return Err(Box::new(Error::FileFormat));
+                        }
+                    };
+                    let mut chunk = start / chunk_len;
+                    let mut offset = start % chunk_len;
                     let mut buf = next_buf(chunk,None);
                     for i in 0..data_bytes.len() {
                         if offset >= buf.len() {
